@@ -234,7 +234,7 @@ func (c *Case) expected() expAdj {
 		if c.UlimitX == "fail" {
 			e.fail = true
 		} else {
-			e.rlimits = []string{c.UlimitX}
+			e.rlimits = strings.Split(c.UlimitX, ";")
 		}
 	}
 	return e
@@ -375,6 +375,27 @@ func generate(thorough bool) []*Case {
 			out = append(out, &Case{Family: "ulimit", Ctr: "c", Ulimit: pl, UlimitX: x})
 		}
 	}
+	// several entries, the offending one (hard < soft, or an unknown type) at every position
+	good := []string{"- type: memlock\n  soft: 10\n  hard: 10\n", "- type: RLIMIT_CORE\n  soft: 0\n  hard: 7\n", "- type: nproc\n  soft: 3\n  hard: 4\n"}
+	goodX := []string{"RLIMIT_MEMLOCK 10/10", "RLIMIT_CORE 7/0", "RLIMIT_NPROC 4/3"}
+	for _, bad := range []string{"- type: nofile\n  soft: 5\n  hard: 2\n", "- type: bogus\n  soft: 1\n  hard: 2\n"} {
+		for n := 2; n <= 3; n++ {
+			for pos := 0; pos < n; pos++ {
+				pl := ""
+				g := 0
+				for k := 0; k < n; k++ {
+					if k == pos {
+						pl += bad
+					} else {
+						pl += good[g]
+						g++
+					}
+				}
+				out = append(out, &Case{Family: "ulimit", Ctr: "c", Ulimit: pl, UlimitX: "fail"})
+			}
+		}
+	}
+	out = append(out, &Case{Family: "ulimit", Ctr: "c", Ulimit: good[0] + good[1] + good[2], UlimitX: goodX[0] + ";" + goodX[1] + ";" + goodX[2]})
 	return out
 }
 
